@@ -289,6 +289,39 @@ def prop_uncontrolled(spec, rec):
     rec.case(spec, {"uncontrolled"}, len(active) >= 2 and len(active) < len(ids))
 
 
+def prop_uncontrolled_sim(spec, rec):
+    """The baseline over a whole simulation (one algorithm object, many calls): at every call
+    active sessions get exactly their station's maximum and no other station is scheduled."""
+    h = sc.build_sim(spec)
+    ids = [s["id"] for s in spec["stations"]]
+    tops = {s["id"]: sc.top_level(s) for s in spec["stations"]}
+    seen = {"calls": 0, "after_departure": False, "satisfied": False}
+
+    def post(algo, active, out):
+        t = algo.interface.current_time
+        act = {s.station_id for s in active}
+        for sid in ids:
+            if sid in act:
+                require(sid in out and len(out[sid]) == 1 and float(out[sid][0]) == tops[sid], "uncontrolled_not_station_maximum", lambda: "period %d: active station %s scheduled %r, maximum %r" % (t, sid, out.get(sid), tops[sid]))
+            else:
+                require(sid not in out or not any(out[sid]), "uncontrolled_schedules_inactive_station", lambda: "period %d: station %s has no active session but is scheduled %r" % (t, sid, out.get(sid)))
+                if any(x["station"] == sid and x["departure"] <= t for x in spec["sessions"]):
+                    seen["after_departure"] = True
+                if any(x["station"] == sid and x["arrival"] <= t < x["departure"] for x in spec["sessions"]):
+                    seen["satisfied"] = True
+        seen["calls"] += 1
+
+    h.scheduler.post = post
+    sc.run_sim(h)
+    labels = sc.scenario_labels(spec) | {"uncontrolled_sim"}
+    if seen["after_departure"]:
+        labels.add("call_after_a_departure")
+    if seen["satisfied"]:
+        labels.add("call_with_satisfied_session_connected")
+    rec.count("calls", seen["calls"])
+    rec.case(spec, labels, seen["after_departure"] and seen["satisfied"])
+
+
 @st.composite
 def cases(draw, finite_max=True):
     n = draw(st.integers(2, 6))
@@ -320,8 +353,9 @@ def subchecks(tier):
         Given("greedy", cases(), prop_greedy, quick=1200, thorough=150000, floors={"constraint_binds": 0.2}, min_nontrivial=100),
         Given("round_robin", cases(), prop_rr, quick=800, thorough=100000, floors={"stopped_by_infeasibility": 0.15}),
         Given("uncontrolled", cases(), prop_uncontrolled, quick=300, thorough=20000),
+        Given("uncontrolled_sim", sc.scenarios(scheduler="uncontrolled", kinds=("cont0", "deadband", "finite"), noise=False), prop_uncontrolled_sim, quick=150, thorough=10000, floors={"call_after_a_departure": 0.3, "call_with_satisfied_session_connected": 0.1}),
     ]
 
 
 def replay(subcheck, spec, rec):
-    return {"greedy": prop_greedy, "round_robin": prop_rr, "uncontrolled": prop_uncontrolled}[subcheck](spec, rec)
+    return {"greedy": prop_greedy, "round_robin": prop_rr, "uncontrolled": prop_uncontrolled, "uncontrolled_sim": prop_uncontrolled_sim}[subcheck](spec, rec)
